@@ -43,7 +43,10 @@ def _build(c, dst):
     if c.get("schunk") and c["axis"] != "YX":
         ch[[d for d in xx.dims if d not in xx.odc.spatial_dims][0]] = c["schunk"]
     xx = xx.chunk(ch)
-    wkw = {"blocksize": list(c["blocks"]), "stats": bool(c.get("stats", False)), "compression": c["comp"]}
+    bs = list(c["blocks"])
+    if len(bs) == 1 and (c["h"] + c["w"]) % 2 == 0:
+        bs = bs[0]            # a single block size may be given as a plain number
+    wkw = {"blocksize": bs, "stats": bool(c.get("stats", False)), "compression": c["comp"]}
     if "pred" in c:
         wkw["predictor"] = {"off": False, "on": True, "2": 2, "3": 3}[c["pred"]]
     if "bigtiff" in c:
@@ -52,7 +55,46 @@ def _build(c, dst):
         wkw["spill_sz"] = c["spill"]
         wkw["writes_per_chunk"] = c["wpc"]
     d = save_cog_with_dask(xx, dst, **wkw)
+    if dst and c.get("vidx", 0) % 2 == 0:
+        # the layout description the writer works from (dst="" returns it without writing): its tile enumeration must be the documented one
+        bad = _meta_enumeration(save_cog_with_dask(xx, "", **wkw)["meta"])
+        if bad:
+            raise LayoutError(bad)
     return d, data, gb, kw.get("nodata")
+
+
+class LayoutError(Exception):
+    pass
+
+
+def _meta_enumeration(meta):
+    """CogMeta.tidx / flat_tile_idx / cog_tidx against first principles: C order over (plane, row, col), flat index = position, levels last-to-first"""
+    import itertools
+
+    levels = meta.flatten()
+    want = []
+    for k in range(len(levels) - 1, -1, -1):
+        mm = levels[k]
+        ny, nx = (-(-n // t) for n, t in zip(mm.shape.yx, mm.tile.yx))
+        if tuple(mm.chunked.yx) != (ny, nx) or mm.num_tiles != mm.num_planes * ny * nx:
+            return "chunked_shape_or_tile_count_wrong"
+        idx = list(itertools.product(range(mm.num_planes), range(ny), range(nx)))
+        if [tuple(map(int, i)) for i in mm.tidx()] != idx:
+            return "tidx_is_not_c_order_over_plane_row_col"
+        if [mm.flat_tile_idx(i) for i in idx] != list(range(len(idx))):
+            return "flat_tile_idx_is_not_the_position_in_tidx"
+        if mm.num_planes > 1 and [tuple(map(int, i)) for i in mm.tidx(1)] != [i for i in idx if i[0] == 1]:
+            return "tidx_of_one_plane_wrong"
+        for probe in ((mm.num_planes, 0, 0), (0, ny, 0), (0, 0, nx), (-1, 0, 0)):
+            try:
+                mm.flat_tile_idx(probe)
+                return "flat_tile_idx_accepts_an_index_outside_the_level"
+            except IndexError:
+                pass
+        want += [(k, *i) for i in idx]
+    if [tuple(map(int, i)) for i in meta.cog_tidx()] != want:
+        return "cog_tidx_is_not_overview_first_then_c_order"
+    return ""
 
 
 def _inspect(dst, c, data, gb, nodata):
@@ -125,6 +167,8 @@ def execute(job):
         ev.update(_inspect(dst, c, data, gb, nodata))
     except TaskFailed as ex:
         ev["outcome"] = type(ex.orig).__name__
+    except LayoutError as ex:
+        ev["outcome"] = "layout_" + str(ex)
     except MachineryError:
         raise
     except Exception as ex:  # noqa: BLE001
